@@ -29,9 +29,12 @@ func (f *Frame) execBuiltin(res *ssa.Call, c *ssa.CallCommon, b *ssa.Builtin) {
 		case *types.Map:
 			heap := S.heapForMap(ut)
 			mc := S.mapContent(ut)
-			set("(ite (= "+args[0].T+" 0) 0 ("+mc+".card "+ex.readObj(f.st, heap, args[0].T)+"))", nil)
+			cont := ex.def(f.pfx+"mc", mc, ex.readObj(f.st, heap, args[0].T))
+			ex.assume("(" + mc + ".ok " + cont + ")")
+			set("(ite (= "+args[0].T+" 0) 0 ("+mc+".card "+cont+"))", nil)
 			if res != nil {
-				ex.assume("(<= 0 " + f.regs[res].T + ")")
+				// memory-size assumption: no map holds more than 2^40 entries
+				ex.assume("(and (<= 0 " + f.regs[res].T + ") (<= " + f.regs[res].T + " 1099511627776))")
 			}
 		case *types.Array:
 			set(fmt.Sprint(ut.Len()), nil)
